@@ -31,26 +31,77 @@ Definition cur_files (s : cstate) : list Z := match c_ph s with CHandling r => f
 Definition accounted (s : cstate) : Prop :=
   forall x, (cnt (c_disk s) x <= cnt (c_detached s ++ cur_files s) x)%nat.
 
+Lemma fwl_accounted l r disk det s' x :
+  (cnt disk x <= cnt (det ++ form_files r) x)%nat ->
+  form_with_limit l r (Build_cstate (CHandling r) disk det) = Some s' ->
+  (cnt (c_disk s') x <= cnt (c_detached s' ++ cur_files s') x)%nat.
+Proof.
+  unfold form_with_limit, cur_files. intros Hi Hst. cbn [c_disk c_detached] in Hst.
+  destruct (r_form r) eqn:Hf.
+  - injection Hst as <-. cbn. unfold form_files in *. now rewrite Hf in *.
+  - unfold form_files in Hi. rewrite Hf in Hi.
+    destruct (negb (rq_multipart (r_desc r))); [injection Hst as <-; cbn; unfold form_files; now rewrite Hf|].
+    destruct (r_stream r).
+    + destruct (r_consumed r); [injection Hst as <-; cbn; unfold form_files; now rewrite Hf|].
+      destruct (negb (rq_wellformed (r_desc r))); [injection Hst as <-; cbn; rewrite ?count_occ_app in *; cbn in *; lia|].
+      destruct (l <=? 0); [injection Hst as <-; cbn; rewrite ?count_occ_app in *; cbn in *; lia|].
+      destruct (limit_cut l (r_desc r)); [|injection Hst as <-; cbn; rewrite ?count_occ_app in *; cbn in *; lia|discriminate].
+      destruct (rq_len (r_desc r) <=? l); injection Hst as <-; cbn.
+      * rewrite ?count_occ_app in *. cbn in *. lia.
+      * unfold reset_request, form_files. cbn [r_form]. rewrite cnt_remove_all, ?count_occ_app in *. cbn in *. lia.
+    + destruct ((0 <? l) && (l <? rq_len (r_desc r))); [injection Hst as <-; cbn; unfold form_files; now rewrite Hf|].
+      destruct (negb (rq_wellformed (r_desc r))); injection Hst as <-; cbn;
+        [unfold form_files; now rewrite Hf|]. rewrite ?count_occ_app in *. cbn in *. lia.
+Qed.
+
+Lemma fwl_detached l r disk det s' :
+  form_with_limit l r (Build_cstate (CHandling r) disk det) = Some s' -> c_detached s' = det.
+Proof.
+  unfold form_with_limit. intros Hst. cbn [c_disk c_detached] in Hst.
+  destruct (r_form r); [injection Hst as <-; reflexivity|].
+  destruct (negb (rq_multipart (r_desc r))); [injection Hst as <-; reflexivity|].
+  destruct (r_stream r).
+  - destruct (r_consumed r); [injection Hst as <-; reflexivity|].
+    destruct (negb (rq_wellformed (r_desc r))); [injection Hst as <-; reflexivity|].
+    destruct (l <=? 0); [injection Hst as <-; reflexivity|].
+    destruct (limit_cut l (r_desc r)); [|injection Hst as <-; reflexivity|discriminate].
+    destruct (rq_len (r_desc r) <=? l); injection Hst as <-; reflexivity.
+  - destruct ((0 <? l) && (l <? rq_len (r_desc r))); [injection Hst as <-; reflexivity|].
+    destruct (negb (rq_wellformed (r_desc r))); injection Hst as <-; reflexivity.
+Qed.
+
+(* a body longer than the limit never leaves a file behind, whichever way the call fails *)
+Lemma fwl_limit_exceeded l r disk det s' : 0 < l -> l < rq_len (r_desc r) -> r_form r = None ->
+  form_with_limit l r (Build_cstate (CHandling r) disk det) = Some s' ->
+  cur_files s' = [] /\ forall x, cnt (c_disk s') x = cnt disk x.
+Proof.
+  unfold form_with_limit, cur_files. intros Hl Hlen Hf Hst. cbn [c_disk c_detached] in Hst. rewrite Hf in Hst.
+  assert (form_files r = []) as Hff by (unfold form_files; now rewrite Hf).
+  destruct (negb (rq_multipart (r_desc r))); [injection Hst as <-; cbn; auto|].
+  destruct (r_stream r).
+  - destruct (r_consumed r); [injection Hst as <-; cbn; auto|].
+    destruct (negb (rq_wellformed (r_desc r))); [injection Hst as <-; cbn; auto|].
+    destruct (Z.leb_spec l 0); [lia|].
+    destruct (limit_cut l (r_desc r)); [|injection Hst as <-; cbn; auto|discriminate].
+    destruct (Z.leb_spec (rq_len (r_desc r)) l); [lia|]. injection Hst as <-. cbn. split; [reflexivity|].
+    intros x. unfold reset_request, form_files. cbn [r_form]. rewrite cnt_remove_all, count_occ_app. lia.
+  - destruct (Z.ltb_spec 0 l); [|lia]. destruct (Z.ltb_spec l (rq_len (r_desc r))); [|lia].
+    cbn [andb] in Hst. injection Hst as <-. cbn. auto.
+Qed.
+
 Lemma cstep_accounted c s e s' : accounted s -> cstep c s e = Some s' -> accounted s'.
 Proof.
   unfold accounted, cur_files. intros Hi Hst x. specialize (Hi x).
   destruct s as [p disk det]. cbn [c_ph c_disk c_detached] in *.
-  destruct e as [d|o| |keep|]; [|destruct o| | |]; destruct p as [|r|]; cbn in Hst; try discriminate.
+  destruct e as [d|o| |keep|]; [|destruct o as [|l| | | |]| | |]; destruct p as [|r|]; cbn [cstep c_ph] in Hst; try discriminate.
   - (* dispatch *)
     destruct (sc_preparse c && rq_clpos d && rq_multipart d).
     + destruct (rq_wellformed d); injection Hst as <-; cbn; rewrite ?count_occ_app in *; cbn in *; lia.
     + injection Hst as <-. cbn. rewrite ?count_occ_app in *. cbn in *. lia.
   - (* MultipartForm() *)
-    destruct (r_form r) eqn:Hf.
-    + injection Hst as <-. cbn. unfold form_files in *. now rewrite Hf in *.
-    + unfold form_files in Hi. rewrite Hf in Hi.
-      destruct (negb (rq_multipart (r_desc r))); [injection Hst as <-; cbn; unfold form_files; now rewrite Hf|].
-      destruct (r_stream r).
-      * destruct (r_consumed r); [injection Hst as <-; cbn; unfold form_files; now rewrite Hf|].
-        destruct (negb (rq_wellformed (r_desc r))); injection Hst as <-; cbn;
-          rewrite ?count_occ_app in *; cbn in *; lia.
-      * destruct (negb (rq_wellformed (r_desc r))); injection Hst as <-; cbn;
-          [unfold form_files; now rewrite Hf|]. rewrite ?count_occ_app in *. cbn in *. lia.
+    eapply (fwl_accounted 0 r disk det); eauto.
+  - (* MultipartFormWithLimit(l) *)
+    eapply (fwl_accounted l r disk det); eauto.
   - injection Hst as <-. cbn. unfold reset_request. rewrite cnt_remove_all, ?count_occ_app in *. cbn. lia.
   - injection Hst as <-. cbn. unfold reset_request. rewrite cnt_remove_all, ?count_occ_app in *. cbn. lia.
   - injection Hst as <-. cbn. rewrite cnt_remove_all. lia.
@@ -91,15 +142,12 @@ Proof.
   - now injection Hrun as <-.
   - destruct (cstep c s e) as [s1|] eqn:Hst; [|discriminate].
     rewrite (IH s1 s' Hrun) by tauto.
-    destruct s as [p disk det]. destruct e as [d|o| |keep|]; [|destruct o| | |]; destruct p as [|r|]; cbn in Hst; try discriminate;
+    destruct s as [p disk det]. destruct e as [d|o| |keep|]; [|destruct o as [|l| | | |]| | |]; destruct p as [|r|];
+      cbn [cstep c_ph] in Hst; try discriminate;
       try (exfalso; apply Hnt; now left); try (injection Hst as <-; reflexivity).
     + destruct (sc_preparse c && rq_clpos d && rq_multipart d); [destruct (rq_wellformed d)|]; injection Hst as <-; reflexivity.
-    + destruct (r_form r); [injection Hst as <-; reflexivity|].
-      destruct (negb (rq_multipart (r_desc r))); [injection Hst as <-; reflexivity|].
-      destruct (r_stream r).
-      * destruct (r_consumed r); [injection Hst as <-; reflexivity|].
-        destruct (negb (rq_wellformed (r_desc r))); injection Hst as <-; reflexivity.
-      * destruct (negb (rq_wellformed (r_desc r))); injection Hst as <-; reflexivity.
+    + now apply fwl_detached in Hst.
+    + now apply fwl_detached in Hst.
 Qed.
 
 Lemma crun_reach c tr : forall s s', creach c s -> crun c s tr = Some s' -> creach c s'.
@@ -834,7 +882,7 @@ Proof.
     destruct (Z.leb_spec (Z.of_nat (length out)) 0) as [Hle|_]; [lia|].
     rewrite Nat2Z.id, firstn_all. destruct b as [|c b']; [congruence|].
     unfold out at 2. rewrite read_parts_all; auto.
-    + now rewrite (collect_form (c :: b') f Hf).
+    + rewrite Z.ltb_irrefl. now rewrite (collect_form (c :: b') f Hf).
     + now apply parts_ok.
     + unfold out. rewrite app_length. pose proof (parts_len (c :: b') (form_parts f) true). lia.
 Qed.
